@@ -41,6 +41,9 @@ FIXES = [
     ("fixed-C06-fragment-chain-work", "C06", "acceptance_work_explodes", "walks the fragment spread graph as a tree"),
     ("fixed-C11-include-deprecated-null", "C11", "includeDeprecated=False", "includeDeprecated: null does not include"),
     ("fixed-C14-excluded-root-field", "C14", "subscribe_raised", "root field is excluded instead of raising IndexError"),
+    ("fixed-C02-raising-getattr-exception", "C02", "raise_odd", "whose __getattr__ raises is reported"),
+    ("fixed-C03-enum-result-equal-object", "C03", "EqName", "serialised as the declared value"),
+    ("fixed-C06-single-root-type-conditions", "C06", "valid_request_refused", "follows CollectFields for fragments"),
     ("fixed-C06-subscription-root-repeated", "C06", "valid_request_refused", "single root field several times"),
 ]
 
